@@ -1,7 +1,8 @@
 /-
   Driver/Conc.lean — line-protocol op for the concurrency model (C11).
 
-  conc_run {mode: "none"|"append"|"full",
+  conc_run {mode: "none"|"append"|"full"|{add: POS, batch: POS},   POS = "beforeRead"|"beforeWrite"|"never"
+                                                         -- an object = `Mode.tbl`: lock position of the single / batch notes writer
             cells: [{key: [comp…], val: VAL}…],          -- initial cell contents (others: empty journal)
             procs: [[OP…]…],                             -- program of process 0, 1, …
             schedule: [pid…], query: [[comp…]…]}
@@ -9,11 +10,13 @@
     ITEM = {id, author, entries: [{file, lines: [[line, credit|null]…], fine}]}
     OP = {k:"ckpt", key, id, author, edits: [[file, [line…]]…]} | {k:"rw", key, ev}
        | {k:"noteAdd", key, id, commit, note} | {k:"noteBatch", key, id, entries: [[commit, note]…]}
-  → {trace: [tag…]            what each schedule step did: idle | <ckpt|rw|note|batch>:<acq|blocked|snap|snap-noop|read|write|cas-fail>
+  → {trace: [tag…]            what each schedule step did: idle | <ckpt|rw|note|batch>:<acq|blocked|snap|snap-noop|read|build|write|cas-fail>
      cells: [VAL…]            final contents of the queried cells
      serial: [VAL…]           the queried cells' initial contents after the completed updates run alone, in completion order
      done, acqd: [[[pid, op id]…]…]   per queried cell
      finished: bool, max_events}
+  conc_table {writers: [{cls: "blind"|"cas", events: ["lock"|"read"|"write"…], held: bool}…]}
+    → {add: POS, batch: POS, ok: bool, rows: [{pos: POS, ok: bool}…]}      `tableOf`, `NotesWriter.pos`, `lockReadWrite`
   conc_aidir {git_dir: [comp…], common: [comp…]} → {ai, rewrite_log, notes_ref, checkpoints (for sha "S")}
 -/
 import GitAiModel.Driver.Json
@@ -67,12 +70,41 @@ def opOf (j : Json) : Except String Op := do
   | "noteBatch" => pure (.noteBatch key (← getNatField j "id") (← pairList (← j.getObjVal? "entries")))
   | s => throw s!"bad op kind {s}"
 
-def modeOf (s : String) : Except String Mode :=
+def posOf (s : String) : Except String LockPos :=
   match s with
-  | "none" => pure .none
-  | "append" => pure .append
-  | "full" => pure .full
-  | _ => throw s!"bad mode {s}"
+  | "beforeRead" => pure .beforeRead
+  | "beforeWrite" => pure .beforeWrite
+  | "never" => pure .never
+  | _ => throw s!"bad lock position {s}"
+
+def posStr : LockPos → String
+  | .beforeRead => "beforeRead"
+  | .beforeWrite => "beforeWrite"
+  | .never => "never"
+
+def modeOf (j : Json) : Except String Mode :=
+  match j.getStr? with
+  | .ok "none" => pure .none
+  | .ok "append" => pure .append
+  | .ok "full" => pure .full
+  | .ok s => throw s!"bad mode {s}"
+  | .error _ => do
+    let a ← posOf (← (← j.getObjVal? "add").getStr?)
+    let b ← posOf (← (← j.getObjVal? "batch").getStr?)
+    pure (.tbl ⟨a, b⟩)
+
+def writerOf (j : Json) : Except String NotesWriter := do
+  let cls ← match (← (← j.getObjVal? "cls").getStr?) with
+    | "blind" => pure WClass.blind
+    | "cas" => pure WClass.cas
+    | s => throw s!"bad writer class {s}"
+  let evs ← (← getArrField j "events").toList.mapM fun e => do
+    match (← e.getStr?) with
+    | "lock" => pure Ev.lock
+    | "read" => pure Ev.read
+    | "write" => pure Ev.write
+    | s => throw s!"bad event {s}"
+  pure ⟨[], cls, evs, ← getBoolField j "held"⟩
 
 def jOptNat : Option Nat → Json
   | some n => jNat n
@@ -117,7 +149,7 @@ def runTrace (m : Mode) : List Pid → State → List Json → State × List Jso
 def handle (op : String) (j : Json) : Option (Except String Json) :=
   match op with
   | "conc_run" => some do
-      let m ← modeOf (← (← j.getObjVal? "mode").getStr?)
+      let m ← modeOf (← j.getObjVal? "mode")
       let cells ← (← getArrField j "cells").toList.mapM fun c => do
         pure ((← pathOf (← c.getObjVal? "key")), (← valOf (← c.getObjVal? "val")))
       let procs ← (← getArrField j "procs").toList.mapM fun p => do (← p.getArr?).toList.mapM opOf
@@ -137,6 +169,12 @@ def handle (op : String) (j : Json) : Option (Except String Json) :=
                   ("acqd", jArr (query.map fun k => jl (s.acqd k))),
                   ("finished", Json.bool fin),
                   ("max_events", jNat maxEvents)])
+  | "conc_table" => some do
+      let ws ← (← getArrField j "writers").toList.mapM writerOf
+      let t := tableOf ws
+      pure (jObj [("add", Json.str (posStr t.add)), ("batch", Json.str (posStr t.batch)),
+                  ("ok", Json.bool (decide t.ok)),
+                  ("rows", jArr (ws.map fun w => jObj [("pos", Json.str (posStr w.pos)), ("ok", Json.bool w.lockReadWrite)]))])
   | "conc_aidir" => some do
       let g ← pathOf (← j.getObjVal? "git_dir")
       let c ← pathOf (← j.getObjVal? "common")
